@@ -20,7 +20,7 @@ LEVEL_RULE = (
 EXHAUSTIVE_SUBDOMAINS = ["atmos on the 10 m altitude grid over [-500, 20000] m"]
 ASSUMPTIONS = ["'tabulated ISA' = analytic hydrostatic ISA with g0, R, lapse rate -6.5 K/km, isothermal above 11 km",
                "round-trip tolerance 1e-8 relative (double precision through two pow() calls)"]
-REQUIRED = ["atmos_grid", "tropopause", "roundtrip", "monotone", "sea_level", "ordering", "distance_uniform",
+REQUIRED = ["arrays_of_more_than_4M_rows", "atmos_grid", "tropopause", "roundtrip", "monotone", "sea_level", "ordering", "distance_uniform",
             "distance_antipodal", "distance_identical", "distance_cardinal", "distance_with_H", "recall_after_in_place_edit", "narrow_integer_dtypes", "non_contiguous_layouts", "bearing", "array_equals_scalar", "types"]
 
 
@@ -359,13 +359,57 @@ def m_types(ctx, case):
     ctx.nontrivial(("types", tuple(H), tuple(V)))
 
 
-MONITORS = {"atmos": m_atmos, "tropopause": m_tropopause, "speed": m_speed, "geo": m_geo, "types": m_types}
+def m_big(ctx, case):
+    """array SIZE is not the functions' business: a trajectory table of millions of rows gets, row by row, what a slice of it
+    gets (a block-wise evaluation that drops the remainder, a work buffer of fixed size)"""
+    import numpy as np
+    from pyModeS.extra import aero
+    n = case["n"]
+    g = np.random.default_rng(case["gseed"])
+    H = g.uniform(-500.0, 20000.0, n)
+    V = g.uniform(0.5, 450.0, n)
+    fns = [("tas2cas", V, H), ("cas2tas", V, H), ("tas2eas", V, H), ("eas2tas", V, H), ("tas2mach", V, H), ("mach2tas", V / 400.0, H),
+           ("mach2cas", V / 400.0, H), ("cas2mach", V, H), ("vsound", H, None), ("distance", H / 300.0, V / 3.0)]
+    fname, x, y = fns[case["f"] % len(fns)]
+    F = getattr(aero, fname)
+    if fname == "distance":
+        full = call(F, x, y, x[::-1].copy(), y[::-1].copy())
+    else:
+        full = call(F, x) if y is None else call(F, x, y)
+    ctx.ev()
+    if full[0] != "ok" or np.shape(full[1]) != (n,):
+        ctx.violation("array-call-fails-or-wrong-shape", fn=fname, size=n, observed=repr(full[1:])[:120])
+        return
+    idx = sorted(set([0, 1, n // 2, n - 2, n - 1] + [int(v) for v in g.integers(0, n, 40)] + [n - 1 - int(v) for v in g.integers(0, min(n, 5000), 20)]))
+    for j in idx:
+        lo = max(0, j - 3)
+        if fname == "distance":
+            xr, yr = x[::-1], y[::-1]
+            part = call(F, x[lo:j + 1].copy(), y[lo:j + 1].copy(), xr[lo:j + 1].copy(), yr[lo:j + 1].copy())
+        else:
+            part = call(F, x[lo:j + 1].copy()) if y is None else call(F, x[lo:j + 1].copy(), y[lo:j + 1].copy())
+        ctx.ev()
+        if part[0] != "ok" or not np.allclose(np.asarray(part[1])[-1], full[1][j], rtol=1e-9, atol=1e-9, equal_nan=True):
+            ctx.violation("row-of-a-large-array-differs-from-the-same-row-alone", fn=fname, size=n, row=j, in_large_array=float(full[1][j]),
+                          alone=repr(part[1:])[:80])
+            return
+    ctx.hit("arrays_of_more_than_4M_rows" if n > (1 << 22) else "arrays_of_about_1M_rows" if n > 900000 else "arrays_of_about_64k_rows")
+    ctx.nontrivial(("big", fname, n))
+
+
+MONITORS = {"atmos": m_atmos, "tropopause": m_tropopause, "speed": m_speed, "geo": m_geo, "types": m_types, "big": m_big}
 
 
 def cases(ctx):
     rng = ctx.rng
     quick = ctx.tier == "quick"
     i = 0
+    # a few very long arrays (one function per case, spread over the shards)
+    for f_ in range(10):
+        for n_ in ((1 << 22) + 12345, (1 << 20) + 7, 65537):
+            if ctx.mine(i) and (not quick or n_ < (1 << 22) or f_ < 10):
+                yield "big", {"n": n_, "f": f_, "gseed": ctx.seed * 1000 + i}
+            i += 1
     # 10 m altitude grid
     grid = [-500.0 + 10.0 * k for k in range(2051)]
     for c0 in range(0, len(grid), 50):
